@@ -627,7 +627,9 @@ impl Exec {
                             // statistics start afresh in a rebuilt level
                             self.n_removed = 0;
                             self.sum_exec = 0;
-                            self.n_adds = if matches!(*kind, "data" | "serde" | "text" | "lying-data" | "lying-serde" | "lying-text") { ids.len() as u64 } else { 0 };
+                            // (the roads that rebuild by `new` + `add_order` count every order as added; the snapshot roads start at zero)
+                            self.n_adds = if matches!(*kind, "data" | "serde" | "text" | "lying-data" | "lying-serde" | "lying-text"
+                                | "serde-value" | "serde-reader" | "serde-escaped") { ids.len() as u64 } else { 0 };
                             self.emit(line_in, "rebuild ok");
                             let post = show_state_content(&self.lvl);
                             self.emit(format!("judge.C10 {pre} {post}"), "J C10 ok");
@@ -793,23 +795,52 @@ impl Exec {
                 }
             }
             ["read", kind] => {
-                // read-only calls: must not change any later result (C07); outputs are not compared here
-                let r = catch_unwind(AssertUnwindSafe(|| {
+                // read-only calls: must not change any later result (C07). For the serialized forms the text / JSON /
+                // package the live level hands out is decoded again and what it decodes to is compared with the model
+                // (a stale or lossy rendering of a level that has a history shows here)
+                use std::str::FromStr;
+                let r = catch_unwind(AssertUnwindSafe(|| -> Option<Result<PriceLevel, String>> {
                     match *kind {
-                        "snapshot" => { let _ = self.lvl.snapshot(); }
-                        "package" => { let _ = self.lvl.snapshot_package(); }
-                        "json" => { let _ = self.lvl.snapshot_to_json(); }
-                        "display" => { let _ = self.lvl.to_string(); }
-                        "serde" => { let _ = serde_json::to_string(&*self.lvl); }
-                        "stats" => { let st = self.lvl.stats(); let _ = (st.to_string(), st.average_execution_price(), st.average_waiting_time(), st.time_since_last_execution()); }
-                        "list" => { let _ = self.lvl.iter_orders(); }
-                        _ => { let _ = (self.lvl.price(), self.lvl.visible_quantity(), self.lvl.hidden_quantity(), self.lvl.total_quantity(), self.lvl.order_count()); }
+                        "snapshot" => Some(PriceLevel::from_snapshot(self.lvl.snapshot()).map_err(|e| e.to_string())),
+                        "package" => Some(self.lvl.snapshot_package().and_then(PriceLevel::from_snapshot_package).map_err(|e| e.to_string())),
+                        "json" => Some(self.lvl.snapshot_to_json().and_then(|j| PriceLevel::from_snapshot_json(&j)).map_err(|e| e.to_string())),
+                        "display" => Some(PriceLevel::from_str(&self.lvl.to_string()).map_err(|e| e.to_string())),
+                        "serde" => Some(serde_json::to_string(&*self.lvl).map_err(|e| e.to_string())
+                            .and_then(|j| serde_json::from_str::<PriceLevel>(&j).map_err(|e| e.to_string()))),
+                        "stats" => { let st = self.lvl.stats(); let _ = (st.to_string(), st.average_execution_price(), st.average_waiting_time(), st.time_since_last_execution()); None }
+                        "list" => { let _ = self.lvl.iter_orders(); None }
+                        _ => { let _ = (self.lvl.price(), self.lvl.visible_quantity(), self.lvl.hidden_quantity(), self.lvl.total_quantity(), self.lvl.order_count()); None }
                     }
                 }));
                 match r {
-                    Ok(()) => self.emit(line, "read"),
+                    Ok(None) => self.emit(line, "read"),
+                    Ok(Some(Ok(l))) => {
+                        let c = show_state_content(&l);
+                        self.emit(line, format!("read {c}"));
+                        // judged as a round trip of the level's own encoding: C16 (text), C17 (serde), C10 (snapshot roads)
+                        let want = format!("{}/{}", self.lvl.price(), listing(&self.lvl));
+                        let got = format!("{}/{}", l.price(), listing(&l));
+                        let j = match *kind { "display" => "C16", "serde" => "C17", _ => "C10r" };
+                        self.emit(format!("judge.{j} live-{kind} {want} ok {got}"), format!("J {} ok", &j[..3]));
+                    }
+                    Ok(Some(Err(e))) => {
+                        self.emit(line, format!("read err={}", e.replace(' ', "_")));
+                        let j = match *kind { "display" => "C16", "serde" => "C17", _ => "C10r" };
+                        self.emit(format!("judge.{j} live-{kind} - err"), format!("J {} ok", &j[..3]));
+                    }
                     Err(_) => self.emit(line, "PANIC"),
                 }
+            }
+            ["big", kind, n] => {
+                // a value with MANY elements (well past 10 000 / 65 536): encode with the library, decode what it wrote,
+                // encode again - the two texts must be equal and nothing may be lost; judged without the model
+                // (the model's list-of-characters parser would take minutes on a megabyte)
+                let Ok(n) = n.parse::<u64>() else { return false };
+                let outcome = catch_unwind(AssertUnwindSafe(|| crate::codec::big_round_trip(kind, n))).unwrap_or_else(|_| "PANIC".to_string());
+                self.emit(line, "big");
+                let j = if kind.ends_with("text") { "C16" } else { "C17" };
+                self.emit(format!("judge.{j} big-{kind} {n} {outcome}"), format!("J {j} ok"));
+                self.emit(format!("judge.C18 {outcome}"), "J C18 ok");
             }
             ["v5", ns, c] => {
                 // the id the REAL generator over `ns`, restored at counter `c` (built by the constructor for 0), hands out
